@@ -4,7 +4,8 @@
    op, so statements over all op sequences cover all settings. *)
 From Coq Require Import List Arith Bool Lia.
 From QV Require Import C09.Trace C09.ModelRouter C09.ModelBlocks C09.ModelStar C09.ProofsRouter C09.ProofsSem
-                       C09.ProofsGuards C09.ProofsBlocks C09.ProofsStar.
+                       C09.ProofsGuards C09.ProofsBlocks C09.ProofsBlocksEquiv C09.ProofsStar
+                       C09.ModelDag C09.ProofsDag C09.ProofsCompose.
 Import ListNotations.
 
 (* 1. the two maps stay mutually inverse bijections of 0..n-1 (the final layout is a bijection),
@@ -109,6 +110,36 @@ Theorem reorder_check_sound : forall c c',
 Proof. exact reorder_ok_sound. Qed.
 Print Assumptions reorder_check_sound.
 
+(* 7b. blocks_equiv for ALL circuits: flattening block_decomposition(c) is a reordering of the
+       measurement-split circuit that only exchanges gates on disjoint qubits; every gate of a
+       block acts within the block's qubits; block names are distinct.  Hypothesis: the gate
+       objects are pairwise distinct, act on at least one qubit and on distinct qubits
+       (gates on more than two qubits make block_decomposition raise = None). *)
+Theorem blocks_equiv : forall n gs bs,
+  gates_ok0 (split_meas gs) ->
+  block_decomposition n gs = Some bs ->
+  teq Dgate (split_meas gs) (flat_map igates bs) /\
+  (forall b, In b bs -> block_wf b) /\ NoDup (map iname bs).
+Proof. exact blocks_equiv_all. Qed.
+Print Assumptions blocks_equiv.
+
+(* _split_multi_qubit_measurements replaces, in place, every multi-qubit measurement by
+   single-qubit measurements on its qubits (in order) and leaves all other gates alone *)
+Theorem split_meas_spec : forall gs, split_meas gs = flat_map split1 gs.
+Proof. exact split_meas_char. Qed.
+Print Assumptions split_meas_spec.
+
+Example blocks_equiv_example :
+  let gs := [mkG KU 1 [2]; mkG KU 2 [2;0]; mkG KU 3 [1]; mkG KU 4 [0]; mkG KU 5 [0;2]; mkG KM 6 [1]] in
+  gates_ok0 (split_meas gs) /\
+  option_map (map (fun b => (iname b, iqs b, map gtag (igates b)))) (block_decomposition 3 gs)
+    = Some [(0, [0;2], [1;2;4;5]); (1, [1;2], [3;6])].
+Proof.
+  cbv zeta. split; [|reflexivity]. split.
+  - repeat constructor; cbn; intuition discriminate.
+  - intros g Hg. cbn in Hg. repeat (destruct Hg as [<-|Hg]; [cbn; split; [lia|reflexivity]|]). destruct Hg.
+Qed.
+
 (* 8. StarConnectivityRouter (deterministic model): on a star graph its run is a guarded run of the
       transition system, hence every two-qubit gate is on an edge, the layout is a bijection and
       the output is P_layout . input *)
@@ -142,6 +173,55 @@ Proof.
   split; [reflexivity|]. split; [lia|].
   intros p Hp Np. destruct p as [|[|[|[|[|p]]]]]; try reflexivity; try lia.
 Qed.
+
+(* 9. Sabre's / ShortestPaths' DAG: for the edges built by _create_dag and ANY valid transitive
+      reduction E' of them (networkx oracle, validity = tr_okb, checked per run), the front layer
+      read off the DAG restricted to the blocks not yet executed equals the specification "no
+      remaining earlier block shares a qubit" (= the front guard of the transition system), as
+      long as only front-layer blocks were executed (predecessor-closed executed set) *)
+Theorem dag_front_sound : forall bl E' X,
+  (forall i, i < length bl -> NoDup (nth i bl []) /\ length (nth i bl []) <= 2) ->
+  tr_okb (create_dag_edges bl) E' = true ->
+  pred_closed E' X ->
+  dag_front E' (length bl) X = spec_front bl X.
+Proof. intros bl E' X H T C. exact (dag_front_eq_spec bl H E' T X C). Qed.
+Print Assumptions dag_front_sound.
+
+Theorem dag_front_step : forall (bl : list (list nat)) E' X j,
+  pred_closed E' X -> In j (dag_front E' (length bl) X) -> pred_closed E' (X ++ [j]).
+Proof. intros bl E' X j. apply closed_step. Qed.
+Print Assumptions dag_front_step.
+
+(* 10. _detach_final_measurements, and the whole __call__ of Sabre / ShortestPaths:
+       detach ; block_decomposition ; any guarded run ; routed_circuit ; _append_final_measurements *)
+Theorem detach_final_spec : forall gs body finals,
+  detach_final gs = (body, finals) ->
+  gs = body ++ finals /\ forallb is_meas finals = true /\
+  (body = [] \/ exists b' g, body = b' ++ [g] /\ is_meas g = false).
+Proof. exact detach_final_spec_proof. Qed.
+Print Assumptions detach_final_spec.
+
+Theorem router_call_correct : forall n (I : interp n) G gs body finals items ops s,
+  detach_final gs = (body, finals) ->
+  gates_ok0 (split_meas body) ->
+  (forall g q, In g (split_meas body) -> In q (gqs g) -> q < n) ->
+  (forall g q, In g finals -> In q (gqs g) -> q < n) ->
+  block_decomposition n body = Some items ->
+  run n (full_guard G) (init n items) ops = Some s -> rem s = [] ->
+  gs = body ++ finals /\
+  forallb (gate_on_edge G) (eflat (out s)) = true /\
+  wf_maps n (l2p s) (p2l s) /\
+  forall x, ieq n I (irun I (eflat (out s) ++ append_final (l2p s) finals) x)
+                    (ipact n I (at_ (final_layout s)) (irun I (split_meas body ++ finals) x)).
+Proof. exact router_call_ok. Qed.
+Print Assumptions router_call_correct.
+
+Example dag_example :
+  let bl := [[0;1]; [1;2]; [0;2]; [3;4]] in
+  create_dag_edges bl = [(0,1); (0,2); (1,2)] /\
+  tr_okb (create_dag_edges bl) [(0,1); (1,2)] = true /\
+  dag_front [(0,1); (1,2)] 4 [] = [0; 3] /\ spec_front bl [0] = [1; 3].
+Proof. repeat split; reflexivity. Qed.
 
 (* ---- non-vacuity *)
 (* a guarded run that needs a SWAP: line 0-1-2, one block CZ(0,2) *)
